@@ -37,7 +37,7 @@ DrvClose(st, half) ==
   ELSE LET t1 == IF half THEN [st.tc EXCEPT !.w = FALSE] ELSE [st.tc EXCEPT !.r = FALSE, !.w = FALSE] IN
        IF t1.r \/ t1.w THEN [st EXCEPT !.tc = t1]
        ELSE IF t1.reading THEN [st EXCEPT !.tc = [t1 EXCEPT !.reading = FALSE, !.echo = TRUE], !.net = <<>>]
-       ELSE [st EXCEPT !.tc = [t1 EXCEPT !.reg = FALSE]]
+       ELSE [st EXCEPT !.tc = [t1 EXCEPT !.dying = TRUE]]      \* the task unregisters it once it runs again
 
 \* TunnelLayer._handle_command for commands of the inner connection
 CmdSend(st, id) == O(st, [k |-> "out", what |-> "send", c |-> "tunnel", id |-> id])
@@ -149,8 +149,8 @@ Run(st) == IF st.stack = <<>> \/ st.tp # "none" THEN st
 Top(st, ev) == IF st.tp # "none" THEN [st EXCEPT !.tq = Append(@, ev)]
                ELSE Run(Push(st, <<[t |-> "top", ev |-> ev]>>))
 
-NoConn == [r |-> FALSE, w |-> FALSE, reg |-> FALSE, reading |-> FALSE, echo |-> FALSE]
-UpConn == [r |-> TRUE, w |-> TRUE, reg |-> TRUE, reading |-> TRUE, echo |-> FALSE]
+NoConn == [r |-> FALSE, w |-> FALSE, reg |-> FALSE, reading |-> FALSE, echo |-> FALSE, dying |-> FALSE]
+UpConn == [r |-> TRUE, w |-> TRUE, reg |-> TRUE, reading |-> TRUE, echo |-> FALSE, dying |-> FALSE]
 S0(cfg) == [cfg |-> cfg, ts |-> "inactive", rep |-> FALSE, tp |-> "none", stack |-> <<>>, tq |-> <<>>, eq |-> <<>>, cq |-> <<>>,
             cwait |-> FALSE, cw |-> FALSE, cr |-> FALSE,
             tc |-> IF cfg.mode = "start" THEN UpConn ELSE NoConn, cc |-> [r |-> FALSE, w |-> FALSE],
@@ -164,7 +164,8 @@ Init == \E i \in 1..Len(Cfgs) : /\ s = S0(Cfgs[i])
                               /\ mon = MonStep(MonInit, CfgEv(Cfgs[i])) /\ obs = <<CfgEv(Cfgs[i])>>
 Live == mon.bad = <<>>
 \* one step: the input record, then everything the layers did synchronously
-Step(inrec, st) == /\ s' = [st EXCEPT !.out = <<>>]
+Reap(st) == IF st.tc.dying THEN [st EXCEPT !.tc.dying = FALSE, !.tc.reg = FALSE] ELSE st
+Step(inrec, st) == /\ s' = Reap([st EXCEPT !.out = <<>>])
                    /\ obs' = inrec \o st.out
                    /\ mon' = FoldEvents(MonStep, mon, inrec \o st.out)
 InRec(what) == [k |-> "in", what |-> what]
